@@ -9,8 +9,8 @@ import (
 
 const RaceEnabled = true
 
-func raceDisable()               { runtime.RaceDisable() }
-func raceEnable()                { runtime.RaceEnable() }
-func raceReleaseMerge(p *int)    { runtime.RaceReleaseMerge(unsafe.Pointer(p)) }
-func raceAcquire(p *int)         { runtime.RaceAcquire(unsafe.Pointer(p)) }
-func RaceErrors() int            { return runtime.RaceErrors() }
+func raceDisable()            { runtime.RaceDisable() }
+func raceEnable()             { runtime.RaceEnable() }
+func raceReleaseMerge(p *int) { runtime.RaceReleaseMerge(unsafe.Pointer(p)) }
+func raceAcquire(p *int)      { runtime.RaceAcquire(unsafe.Pointer(p)) }
+func RaceErrors() int         { return runtime.RaceErrors() }
